@@ -131,7 +131,9 @@ def ref_check(cfg, pp, p, x):
         t = ref_next_target(cfg['max_target'], pp, p)
         if fields(x)[1] != ref_compact(t):
             return 'bits'
-        if pow_of(cfg, x) > t:          # full 256-bit integers
+        # "meets ITS proof-of-work target": the target the header's own bits encode (lbrycrd: SetCompact(nBits)),
+        # compared on full 256-bit integers; it never exceeds the exact retarget value t
+        if pow_of(cfg, x) > ref_from_compact(fields(x)[1]):
             return 'pow'
     return None
 
@@ -153,7 +155,9 @@ def ref_first_invalid(cfg, below, hs):
 
 
 def horizon(cfg):
-    return max([h for h, _ in cfg['checkpoints']] or [-1]) + CHUNK
+    """where open() starts its link check in an aligned file: above the last checkpointed chunk, or at genesis when the
+    configuration has no checkpoints at all"""
+    return max(h for h, _ in cfg['checkpoints']) + CHUNK if cfg['checkpoints'] else 0
 
 
 # ------------------------------------------------------------------------------------------------
@@ -264,6 +268,22 @@ class Impl:
             except (IndexError, AssertionError) as e:
                 res = {'error': type(e).__name__}
             return self.state(want_io, {'res': res})
+        if kind == 'connect_pair':
+            async def one(x):
+                self.h.why = None
+                try:
+                    added = await self.h.connect(x['start'], bytes.fromhex(x['batch']))
+                    res = {'ok': added}
+                    if self.h.why is not None:
+                        res['invalid'] = self.h.why
+                except (IndexError, AssertionError) as e:
+                    res = {'error': type(e).__name__}
+                return res
+
+            async def both():
+                return await asyncio.gather(one(op['a']), one(op['b']))
+            ra, rb = self.run(both())
+            return self.state(want_io, {'res_a': ra, 'res_b': rb})
         if kind == 'close':
             self.run(self.h.close())
             f = self.get_file()
@@ -387,6 +407,7 @@ class Monitor:
         self.w = 0                  # end of the most recently connected batch
         self.base = 0               # heights below base were never validated by connect (loaded from disk)
         self.bad = None
+        self.tip_bad = None
 
     def fail(self, msg):
         if self.bad is None:
@@ -446,13 +467,25 @@ class Monitor:
         if fb is None:
             bl = self.broken_links(file, start, whole)
             fb = bl[0] if bl else None
+        # the tip has no successor whose link would expose damage: it has to obey link, bits and proof of work itself
+        tip_bad = None
+        if fb is None and whole >= max(start, 1) + 1:
+            hs = split(file[(whole - 3) * HS:whole * HS]) if whole >= 3 else split(file[:whole * HS])
+            tip_bad = ref_check(cfg, hs[-3] if len(hs) >= 3 else None, hs[-2], hs[-1])
+        self.tip_bad = tip_bad
         if not cfg['checkpoints'] and not (cfg['genesis'] is None and start == 0):
-            if fb is None and size != whole:
+            if fb is None and tip_bad and size != whole - 1:
+                self.fail(f'the tip (height {whole - 1}) of the stored file breaks rule {tip_bad} but {size} of {whole} '
+                          f'headers are loaded' + (': the damaged tip survived the restart' if size == whole else ''))
+            if fb is None and not tip_bad and size != whole:
                 self.fail(f'undamaged file of {whole} headers loaded as {size}')
             if fb is not None and size < max(0, fb - 1):
                 self.fail(f'first damaged link at {fb} but only {size} headers kept')
         # a restart without any crash or damage loads exactly what close() stored
-        if not self.tampered and self.stored is not None and not padded:
+        # (genesis_hash = None is tolerated by validate_header but not by repair, which then drops everything it checks
+        # from height 0; no shipped class has it -- modelled, not claimed)
+        if not self.tampered and self.stored is not None and not padded and not tip_bad \
+                and not (cfg['genesis'] is None and start == 0):
             if io_after != self.stored:
                 n = len(self.stored) // HS
                 self.fail(f'restart without a crash: {n} headers were stored, {size} are loaded'
@@ -466,6 +499,14 @@ class Monitor:
                 d = next(h for h in range(start, size) if io_after[h * HS:(h + 1) * HS] != self.stored[h * HS:(h + 1) * HS])
                 self.fail(f'loaded chain of {size} headers contains header {d} which differs from what was stored '
                           f'(first broken link at {fb})')
+        # the loaded tip above the start of the check obeys link, bits and proof of work
+        # (after a cut at a broken link the new tip is vouched for by the link of the header that was dropped)
+        if fb is None and size >= max(start, 1) + 1 and size * HS <= len(io_after) and not padded \
+                and (not tip_bad or size == whole):
+            hs = split(io_after[max(0, size - 3) * HS:size * HS])
+            why = ref_check(cfg, hs[-3] if len(hs) >= 3 else None, hs[-2], hs[-1])
+            if why:
+                self.fail(f'after the restart the loaded tip (height {size - 1}) breaks rule {why}')
         # the loaded chain above the checkpoint horizon must link
         bl = self.broken_links(io_after, hz, size)
         if bl:
@@ -543,6 +584,25 @@ class Monitor:
             self.base = max(self.base, min(size, start + CHUNK))
             self.w = max(self.w, self.base)
         self.io, self.size = io_after, size
+
+    def on_connect_pair(self, op, res, io_after, size):
+        """two connect() calls in flight at once must act like two calls one after the other: whatever they leave
+        behind is a chain that links, carries the demanded bits and meets its targets, with no filler in it"""
+        lo = min(op['a']['start'], op['b']['start'])
+        if lo < self.base:
+            self.base = 0 if lo < 2 else lo
+        if size * HS > len(io_after):
+            self.fail(f'after two overlapping connect() calls len(headers) = {size} exceeds the {len(io_after) // HS} '
+                      f'headers in the store')
+        else:
+            r = self.chain_ok(io_after, size)
+            if r is not None:
+                zero = io_after[r[0] * HS:(r[0] + 1) * HS] == bytes(HS)
+                self.fail(f'after two overlapping connect() calls ({op["a"]["start"]}: {len(op["a"]["batch"]) // (2 * HS)} '
+                          f'headers, {op["b"]["start"]}: {len(op["b"]["batch"]) // (2 * HS)} headers -> {res["res_a"]}, '
+                          f'{res["res_b"]}) the stored chain of {size} headers breaks rule {r[1]} at height {r[0]}'
+                          + (' (all-zero filler)' if zero else ''))
+        self.io, self.size, self.w = io_after, size, size
 
     def on_lookup(self, op, res, io_after, size):
         """a lookup may store only a chunk that hashes to the checkpoint of its range; in a range without a
@@ -647,7 +707,7 @@ class Miner:
         while True:
             raw = pack(ver, prev, merkle, claim, ts, bits & 0xffffffff, nonce)
             self.tries += 1
-            good = (not cfg['vd']) or pow_value(raw) <= t
+            good = (not cfg['vd']) or pow_value(raw) <= (ref_from_compact(bits & 0xffffffff) if rule != 'bits' else t)
             if good != want_pow_fail:
                 return raw
             if not cfg['vd'] and want_pow_fail:
@@ -728,6 +788,7 @@ class History:
         self.impl = Impl(cfg, file)
         self.mon = Monitor(cfg, file)
         self.guard = box is not None
+        self.case_extra = None
         if box is not None:
             box.append(self)
 
@@ -742,6 +803,8 @@ class History:
             self.mon.on_connect(op, res['res'], self.impl.io(), res['size'])
         elif k in ('fetch', 'fetch_chunk'):
             self.mon.on_fetch(op, res['res'], self.impl.io(), res['size'])
+        elif k == 'connect_pair':
+            self.mon.on_connect_pair(op, res, self.impl.io(), res['size'])
         elif k == 'lookup':
             self.mon.on_lookup(op, res, self.impl.io(), res['size'])
             self.run.count('lookup:%s/%s' % (res['fetch'], res['res']))
@@ -780,6 +843,8 @@ class History:
     def finish(self, nontrivial=True):
         case = {'kind': self.kind, 'cfg': self.cfg, 'file': None if self.file0 is None else self.file0.hex(),
                 'ops': self.ops}
+        if self.case_extra:
+            case.update(self.case_extra)
         self.impl.dispose()
         self.run.case(case, nontrivial=nontrivial and len(self.ops) > 1)
         if self.mon.bad:
@@ -797,6 +862,8 @@ class History:
 
 def run_case(run, model, case):
     """replay a stored self-contained case"""
+    if case.get('schedule'):
+        return run_schedule(run, model, case['cfg'], case['schedule'])
     file = None if case.get('file') is None else bytes.fromhex(case['file'])
     h = History(run, model, case['cfg'], file, case.get('kind', 'replay'))
     for op in case['ops']:
@@ -965,14 +1032,15 @@ def gen_cuts(run, model, rng, chain, cfg, offsets, kind):
     return reopen_cases(run, model, cfg, [blob[:m] for m in offsets], kind)
 
 
-def gen_damage_small(run, model, rng, chain, cfg, positions, kind):
-    """misaligned files (one trailing byte) so that open() repairs from genesis: every damage position"""
+def gen_damage_small(run, model, rng, chain, cfg, positions, kind, tail=b'\x00'):
+    """every damage position, in a misaligned file (one trailing byte) and -- tail=b'' -- in an aligned one: without
+    checkpoints open() checks the links from genesis either way"""
     files = []
     for (hgt, off, data) in positions:
         b = bytearray(b''.join(chain))
         old = bytes(b[hgt * HS + off:hgt * HS + off + len(data)])
         b[hgt * HS + off:hgt * HS + off + len(data)] = data
-        files.append((bytes(b) + b'\x00', (hgt * HS + off, old)))
+        files.append((bytes(b) + tail, (hgt * HS + off, old)))
     return reopen_cases(run, model, cfg, files, kind)
 
 
@@ -1065,11 +1133,13 @@ def gen_pow_boundary(run, model, rng, box=None):
     miner.cfg = cfg
     t = miner.target_for(main)
     lo, hi = compact_band(t)
-    values = [('target', t), ('target+1', t + 1), ('target-1', max(0, t - 1)), ('band-top', hi - 1),
+    values = [('bits-target', lo), ('bits-target+1', lo + 1), ('bits-target-1', max(0, lo - 1)),
+              ('between-bits-and-exact', rng.randrange(lo + 1, t + 1) if t > lo else lo + 1),
+              ('target', t), ('target+1', t + 1), ('target-1', max(0, t - 1)), ('band-top', hi - 1),
               ('next-step', min(M256 - 1, hi)), ('band-mid', rng.randrange(t + 1, hi) if hi > t + 1 else t + 1),
               ('zero', 0), ('max', M256 - 1), ('below', rng.randrange(0, t + 1))]
     rng.shuffle(values)
-    values = values[:rng.randrange(4, len(values) + 1)]
+    values = values[:rng.randrange(6, len(values) + 1)]
     cands, stub = [], {}
     for name, v in values:
         x = miner.header(main, delta=rng.choice([150, 150, 100, 300]))
@@ -1217,6 +1287,11 @@ def gen_short_fork_restart(run, model, rng, kind, rel='shorter', box=None):
     big = kind != 'small'
     h = History(run, model, cfg, file0, 'short-fork-restart', box)
     h.do({'op': 'open', 'io': not big})
+    if big and h.size() != base:
+        # a store that ends in headers nobody validated: open() drops an invalid tip; build on what was loaded
+        chain = split(h.impl.io())[:h.size()]
+        full = chain + miner.extend(chain[-2:], len(full) - base)[2:]
+        base = len(chain)
     h.connect(base, full[base:], io=not big)
     h.do({'op': 'close', 'io': not big})
     h.do({'op': 'open', 'io': not big})
@@ -1240,8 +1315,119 @@ def gen_short_fork_restart(run, model, rng, kind, rel='shorter', box=None):
     return h.finish()
 
 
+@guarded
+def gen_overlapping_connects(run, model, rng, box=None):
+    """two connect() calls in flight on one Headers object (asyncio.gather): a batch of 300 headers and, meanwhile, a
+    short valid fork below it / its continuation above it / the same pair the other way round. The invariant is proved
+    for sequences of atomic connect steps; the ledger serialises callers behind a lock, this pins the atomicity
+    itself"""
+    cfg = {'max_target': (1 << 248) - 1, 'genesis': None, 'vd': True, 'checkpoints': []}
+    miner = Miner(rng, cfg)
+    main = miner.extend([miner.genesis()], 352, delta=150)
+    cfg = with_genesis(cfg, main)
+    miner.cfg = cfg
+    fork = miner.extend(main[:40], 5, delta=150)
+    h = History(run, model, cfg, None, 'overlapping-connects', box)
+
+    def pair(a, b):
+        return h.do({'op': 'connect_pair', 'io': False,
+                     'a': {'start': a[0], 'batch': b''.join(a[1]).hex()},
+                     'b': {'start': b[0], 'batch': b''.join(b[1]).hex()}})
+    big = (50, main[50:350])
+    for other, first in [((40, fork[40:]), True), ((350, main[350:353]), True), ((40, fork[40:]), False),
+                         ((49, main[49:52]), True)]:
+        h.do({'op': 'setfile', 'file': None})
+        h.do({'op': 'open'})
+        h.connect(0, main[:50], io=False)
+        run.count('overlap:%s-at-%d' % ('big-first' if first else 'big-second', other[0]))
+        pair(big, other) if first else pair(other, big)
+        h.connect(h.size(), miner.extend(split(h.impl.io())[-2:], 1, delta=150)[-1:] if h.size() >= 2 else [], io=False)
+        h.do({'op': 'close', 'io': False})
+    return h.finish()
+
+
+def run_schedule(run, model, cfg, schedule):
+    """several header stores alive in one process: schedule = [[store name, op], ...] executed in order, every store
+    compared with its own model run; each reported case carries the whole schedule so that it replays on its own"""
+    stores, done = {}, []
+    try:
+        for name, op in schedule:
+            if name not in stores:
+                stores[name] = History(run, model, cfg, None, 'stores/' + name)
+                stores[name].guard = True
+                stores[name].case_extra = {'schedule': done}
+            done.append([name, op])
+            stores[name].do(op)
+    except Stop:
+        pass
+    ok = True
+    for name in sorted(stores):
+        ok = stores[name].finish() and ok
+    return ok
+
+
+def gen_two_stores(run, model, rng):
+    """two header stores alive in one process (same built-in checkpoints, different files): what one store fetches or
+    verifies must not change what the other one believes to have; a third store opened meanwhile starts from scratch"""
+    chain = linked_chain(rng, 2 * CHUNK)
+    good = [b''.join(chain[:CHUNK]), b''.join(chain[CHUNK:])]
+    cfg = {'max_target': (1 << 255) - 1, 'genesis': dsha(chain[0]).hex(), 'vd': True,
+           'checkpoints': [[0, dsha(good[0]).hex()], [CHUNK, dsha(good[1]).hex()]]}
+    junk = b''.join(rand_header(rng) for _ in range(CHUNK))
+
+    def look(height, chunk, via=None):
+        return {'op': 'lookup', 'via': via or rng.choice(VIAS), 'height': height, 'chunk': chunk.hex(), 'io': False}
+    opn, cls = {'op': 'open', 'io': False}, {'op': 'close', 'io': False}
+    schedule = [
+        ['A', opn], ['B', opn],
+        ['A', look(CHUNK + rng.randrange(CHUNK), good[1])],                   # A fetches the upper chunk
+        ['B', {'op': 'has_header', 'height': CHUNK + rng.randrange(CHUNK)}],
+        ['B', look(CHUNK + rng.randrange(CHUNK), junk)],                      # B still has to fetch it, refuses junk
+        ['B', look(rng.randrange(CHUNK), good[0])],                           # B fetches the lower chunk
+        ['A', {'op': 'has_header', 'height': rng.randrange(CHUNK)}],
+        ['A', look(rng.randrange(CHUNK), junk)],
+        ['B', look(CHUNK + rng.randrange(CHUNK), good[1], 'get_raw_header')],
+        ['A', look(rng.randrange(CHUNK), good[0], 'hash')],
+        ['C', opn], ['C', {'op': 'has_header', 'height': 1500}], ['C', look(1500, junk)],
+        ['A', cls], ['B', cls], ['B', opn], ['A', opn],
+        ['B', {'op': 'has_header', 'height': 500}], ['A', {'op': 'has_header', 'height': 1500}],
+    ]
+    return run_schedule(run, model, cfg, schedule)
+
+
+TIP_FIELDS = [('version', 0, 4), ('prev', 4, 36), ('merkle', 36, 68), ('claim', 68, 100), ('time', 100, 104),
+              ('bits', 104, 108), ('nonce', 108, 112)]
+
+
+@guarded
+def gen_tip_damage(run, model, rng, box=None):
+    """a validly stored chain whose LAST header is overwritten in one field (no successor exposes it through a link):
+    open() has to validate the tip itself and drop exactly it. Aligned and misaligned files, no checkpoints."""
+    cfg = {'max_target': (1 << 248) - 1, 'genesis': None, 'vd': True, 'checkpoints': []}
+    miner = Miner(rng, cfg)
+    main = miner.extend([miner.genesis()], rng.randrange(3, 8), delta=rng.choice([150, 150, 300]))
+    cfg = with_genesis(cfg, main)
+    blob = b''.join(main)
+    files = []
+    for name, lo, hi in TIP_FIELDS:
+        for _ in range(2):
+            b = bytearray(blob)
+            i = len(blob) - HS + rng.randrange(lo, hi)
+            old = bytes(b[i:i + 1])
+            b[i] ^= 1 << rng.randrange(8)
+            still = ref_first_invalid(cfg, [], split(bytes(b))) is None
+            run.count('tip-damage:%s%s' % (name, '/still-valid' if still else ''))
+            files.append((bytes(b) + rng.choice([b'', b'', b'\x01']), (i, old)))
+    # the whole tip replaced; a one-header store; an untouched file
+    files.append((blob[:-HS] + rng.randbytes(HS), (len(blob) - HS, blob[-HS:])))
+    files.append((blob[:-HS] + bytes(HS), (len(blob) - HS, blob[-HS:])))
+    files.append(blob)
+    files.append(blob[:HS])
+    return reopen_cases(run, model, cfg, files, 'tip-damage')
+
+
 RESTART_VARIANTS = ['hole-low', 'both', 'damaged-low', 'hole-high', 'none-fetched']
-CUT_CLASSES = ['mid-last', 'last-byte', 'first-byte-of-last', 'mid-tip', 'in-chunk1', 'in-chunk0', 'tiny', 'aligned-tip',
+CUT_CLASSES = ['tip-flip', 'mid-last', 'last-byte', 'first-byte-of-last', 'mid-tip', 'in-chunk1', 'in-chunk0', 'tiny', 'aligned-tip',
                'aligned-2000', 'aligned-1500', 'no-cut', 'appended-junk']
 
 
@@ -1278,7 +1464,10 @@ def gen_checkpoint_restart(run, model, rng, variant, cut, box=None):
             'in-chunk1': (CHUNK + rng.randrange(1, CHUNK)) * HS - rng.randrange(1, HS),
             'in-chunk0': rng.randrange(1, CHUNK) * HS - rng.randrange(1, HS), 'tiny': rng.randrange(1, HS),
             'aligned-tip': n - HS, 'aligned-2000': 2 * CHUNK * HS, 'aligned-1500': 1500 * HS}
-    if cut in cuts:
+    if cut == 'tip-flip':
+        name, lo, hi = rng.choice(TIP_FIELDS)
+        h.do({'op': 'patchfile', 'off': n - HS + rng.randrange(lo, hi), 'data': bytes([rng.randrange(1, 256)]).hex()})
+    elif cut in cuts:
         h.do({'op': 'patchfile', 'cut': cuts[cut]})
     elif cut == 'appended-junk':
         h.do({'op': 'patchfile', 'off': n, 'data': rng.randbytes(rng.randrange(1, HS)).hex()})
@@ -1577,15 +1766,15 @@ def main(run):
         'the old chain continued at len(headers), one header altered in one field, headers mined valid except for '
         'prev / bits / pow, wrong start, misaligned and empty batches, re-connects), close, cut or overwrite the file '
         'at a random byte, reopen; the 20 main-net fixture headers at real difficulty; every cut offset and every '
-        'single-field damage of small chains; aligned files of 1001..1100 headers damaged above the 1000-header '
-        'horizon; 1 and 2 checkpointed chunks fetched with wrong / truncated / right content; lookups (get / hash / '
+        'single-field damage of small chains in misaligned and aligned files (no checkpoints: checked from genesis); '
+        'aligned files of 1001..1100 headers; 1 and 2 checkpointed chunks fetched with wrong / truncated / right content; lookups (get / hash / '
         'get_raw_header / ensure_chunk_at) with a chunk getter installed at stored heights, above the tip, in all-zero '
         'slots and in checkpointed ranges while the server answers with junk, a linked but unvalidated chunk, our own '
         'headers, a valid continuation, nothing or a misaligned blob; otherwise valid headers whose proof-of-work value '
-        'sits at target, target+-1, inside / at the top of / just past the band that rounds to the same compact bits '
+        'sits at the target its bits encode (+-1), between that and the exact retarget value, at the exact value (+-1), inside / at the top of / just past the band that rounds to the same compact bits '
         '(PoW hash replaced for exactly those headers on both sides; one such header pre-mined with the real hash is in '
         'the corpus); two built-in checkpoints with the higher / lower / both / no chunk fetched or a lower header damaged, '
-        'a valid fork that leaves the chain shorter / of equal length / longer (or the same headers again) followed by a clean close / reopen in stores below the 999-header '
+        'the last header overwritten in each field (aligned / misaligned files, and above two checkpoints); two connect() calls in flight at once on one store (300 headers and a short fork below / a continuation above); two and three stores with the same checkpoints alive in one process; a valid fork that leaves the chain shorter / of equal length / longer (or the same headers again) followed by a clean close / reopen in stores below the 999-header '
         'horizon, above it and with a checkpoint; every class of crash cut (misaligned in the last header, the tip, either chunk; aligned; appended junk), then '
         'restart, has_header, lookups and re-connect of the tip; in every fetch / lookup scenario for a checkpointed range '
         'also replies of another length (genuine chunk + 1 / 3 / 1000 headers, + a partial header, + zeros, doubled, '
@@ -1662,6 +1851,7 @@ def main(run):
         positions.append((hgt, 0, b'\xff' * HS))
     for i in range(0, len(positions), 250):
         gen_damage_small(run, model, rng, small, cfg, positions[i:i + 250], 'small-damage')
+        gen_damage_small(run, model, rng, small, cfg, positions[i:i + 250], 'small-damage-aligned', tail=b'')
     run.count('small-damage-positions', len(positions))
     # link-only chains around the repair batch size (36): damaged tip / last link at every length
     for n in (list(range(1, 80)) if T == 'thorough' else [1, 2, 3, 35, 36, 37, 38, 39, 72, 73, 74]):
@@ -1671,6 +1861,7 @@ def main(run):
         if n > 1:
             pos += [(n - 2, 40, b'\xee'), (0, 40, b'\xee')]
         gen_damage_small(run, model, rng, ch, c2, pos, 'batch-boundary')
+        gen_damage_small(run, model, rng, ch, c2, pos, 'batch-boundary-aligned', tail=b'')
 
     # ---- histories
     for _ in range(vlib.scaled(T, 100, 1500)):
@@ -1702,7 +1893,7 @@ def main(run):
     combos = [(v, c) for v in RESTART_VARIANTS for c in CUT_CLASSES]
     if T != 'thorough':
         fixed = [('hole-low', 'mid-last'), ('hole-low', 'in-chunk1'), ('damaged-low', 'last-byte'),
-                 ('both', 'mid-tip'), ('hole-high', 'first-byte-of-last'), ('hole-low', 'aligned-tip')]
+                 ('both', 'mid-tip'), ('hole-high', 'first-byte-of-last'), ('hole-low', 'aligned-tip'), ('both', 'tip-flip')]
         rest = [x for x in combos if x not in fixed]
         rng.shuffle(rest)
         combos = fixed + rest[:2]
@@ -1712,6 +1903,17 @@ def main(run):
     # ---- proof of work exactly at / just above the target
     for _ in range(vlib.scaled(T, 25, 400)):
         gen_pow_boundary(run, model, rng)
+
+    # ---- damaged tip
+    for _ in range(vlib.scaled(T, 6, 100)):
+        gen_tip_damage(run, model, rng)
+
+    # ---- overlapping calls and several stores in one process
+    for _ in range(vlib.scaled(T, 1, 8)):
+        gen_overlapping_connects(run, model, rng)
+    for _ in range(vlib.scaled(T, 2, 20)):
+        gen_two_stores(run, model, rng)
+        run.count('two-stores')
 
     # ---- lookups while a chunk getter is installed
     for _ in range(vlib.scaled(T, 40, 600)):
